@@ -2,7 +2,7 @@
 Require Import AT.Model.Base AT.Model.Rose AT.Model.Iter AT.Spec.IterSpec AT.Proofs.ListLemmas.
 Require Import AT.Proofs.IterPre AT.Proofs.IterPost AT.Proofs.IterLevel.
 From Coq Require Import Permutation.
-Open Scope Z_scope.
+Local Open Scope Z_scope.
 
 Lemma filter_true {A} (l : list A) : filter (fun _ => true) l = l.
 Proof. induction l; simpl; congruence. Qed.
